@@ -550,4 +550,160 @@ theorem micro_ok (ovf : Bool → Nat → Int) (st : St) (h : Handler) (s : Statu
   | readData => exact readData_ok st s buf hi
   | readToEof => exact readToEof_ok st s buf hi
 
+/-! ## one event-loop callback -/
+
+/-- the verdict on one event-loop callback: a wait for strictly more than is buffered, or the callback -/
+def StepOK (st : St) (buf : Bytes) (c0 : Nat) : StepRes → Prop
+  | .wait st' c k h' => c0 ≤ c ∧ c - c0 ≤ buf.length ∧ buf.length - (c - c0) < k ∧ st'.max = st.max ∧
+      InvBuf st' h' (buf.drop (c - c0))
+  | .done r => RespOK st.max r
+  | .abort _ => False
+
+theorem step_ok (ovf : Bool → Nat → Int) : ∀ (f : Nat) (st : St) (h : Handler) (s : Status) (buf : Bytes) (c0 : Nat),
+    InvBuf st h buf → buf.length < f → StepOK st buf c0 (step ovf f st h s buf c0) := by
+  intro f
+  induction f with
+  | zero => intro st h s buf c0 _ hf; omega
+  | succ f ih =>
+    intro st h s buf c0 hi hf
+    have hm := micro_ok ovf st h s buf hi
+    simp only [step]
+    generalize micro ovf st h s buf = m at hm
+    cases m with
+    | goto st' c h' =>
+      simp only [MicroOK] at hm
+      obtain ⟨hc0, hc1, hmax, hinv⟩ := hm
+      have := ih st' h' .ok (buf.drop c) (c0 + c) hinv (by rw [List.length_drop]; omega)
+      (try dsimp only)
+      generalize step ovf f st' h' .ok (buf.drop c) (c0 + c) = r at this
+      cases r with
+      | wait st'' c' k h'' =>
+        simp only [StepOK] at this ⊢
+        obtain ⟨a1, a2, a3, a4, a5⟩ := this
+        rw [List.length_drop] at a2 a3
+        rw [List.drop_drop] at a5
+        have e : c + (c' - (c0 + c)) = c' - c0 := by omega
+        rw [e] at a5
+        exact ⟨by omega, by omega, by omega, by rw [a4, hmax], a5⟩
+      | done r => simp only [StepOK] at this ⊢; rw [← hmax]; exact this
+      | abort w => simp only [StepOK] at this
+    | wait st' c k h' =>
+      simp only [MicroOK] at hm
+      obtain ⟨hc1, hk, hmax, hinv⟩ := hm
+      simp only [StepOK]
+      have e : c0 + c - c0 = c := by omega
+      rw [e]
+      exact ⟨by omega, hc1, hk, hmax, hinv⟩
+    | done r => simpa [StepOK, MicroOK] using hm
+    | abort w => simp [MicroOK] at hm
+
+/-- a handler entered with EOF or an error always ends the request -/
+theorem micro_not_ok (ovf : Bool → Nat → Int) (st : St) (h : Handler) (s : Status) (buf : Bytes) (hs : s ≠ .ok) :
+    ∃ r, micro ovf st h s buf = .done r := by
+  cases h with
+  | readHeader =>
+    simp only [micro, readHeader]
+    rw [if_pos (by cases s <;> simp at hs ⊢)]
+    exact ⟨_, rfl⟩
+  | chunkedHeader =>
+    simp only [micro, chunkedHeader]
+    rw [if_pos (by cases s <;> simp at hs ⊢)]
+    exact ⟨_, rfl⟩
+  | readData =>
+    simp only [micro, readData]
+    rw [if_pos (by cases s <;> simp at hs ⊢)]
+    exact ⟨_, rfl⟩
+  | readToEof =>
+    cases s with
+    | ok => exact absurd rfl hs
+    | eof => exact ⟨_, rfl⟩
+    | err => exact ⟨_, rfl⟩
+
+theorem step_not_ok (ovf : Bool → Nat → Int) (f : Nat) (st : St) (h : Handler) (s : Status) (buf : Bytes) (c0 : Nat)
+    (hs : s ≠ .ok) : ∃ r, step ovf (f + 1) st h s buf c0 = .done r := by
+  obtain ⟨r, hr⟩ := micro_not_ok ovf st h s buf hs
+  exact ⟨r, by simp only [step, hr]⟩
+
+/-! ## a whole run, for any reader/network behaviour -/
+
+theorem run_ok {σ : Type} (ovf : Bool → Nat → Int) (oracle : σ → Nat → Nat → σ × Arrival) :
+    ∀ (f : Nat) (o : σ) (st : St) (h : Handler) (s : Status) (rest : Bytes) (rlen b : Nat) (ws : List Nat),
+    rlen = rest.length → b ≤ rlen → InvBuf st h (rest.take b) → (s = .ok → rlen - b + 2 ≤ f) → 1 ≤ f →
+    ∃ r ws', run ovf oracle f o st h s rest rlen b ws = .callback r ws' ∧ RespOK st.max r := by
+  intro f
+  induction f with
+  | zero => intro o st h s rest rlen b ws _ _ _ _ hf; omega
+  | succ f ih =>
+    intro o st h s rest rlen b ws hrl hb hi hfuel _
+    have hsl : (rest.take b).length = b := by rw [List.length_take]; omega
+    have hso := step_ok ovf (b + 1) st h s (rest.take b) 0 hi (by omega)
+    simp only [run]
+    generalize hstep : step ovf (b + 1) st h s (rest.take b) 0 = r0 at hso
+    cases r0 with
+    | done r => exact ⟨r, _, rfl, hso⟩
+    | abort w => simp [StepOK] at hso
+    | wait st' c k h' =>
+      have hsok : s = .ok := by
+        by_cases hs : s = .ok
+        · exact hs
+        · obtain ⟨r, hr⟩ := step_not_ok ovf b st h s (rest.take b) 0 hs
+          rw [hr] at hstep; cases hstep
+      have hf2 := hfuel hsok
+      simp only [StepOK] at hso
+      obtain ⟨_, hc, hk, hmax, hinv⟩ := hso
+      rw [hsl] at hc hk
+      simp only [Nat.sub_zero] at hc hk hinv
+      (try dsimp only)
+      generalize oracle o c k = oa
+      obtain ⟨o', a⟩ := oa
+      (try dsimp only)
+      rw [if_neg (by omega)]
+      have hrl' : rlen - c = (rest.drop c).length := by rw [List.length_drop]; omega
+      have hdl : ((rest.take b).drop c).length = b - c := by rw [List.length_drop, hsl]
+      cases a with
+      | more extra =>
+        (try dsimp only)
+        split
+        · rename_i hkr
+          generalize hb2 : (if k + extra > rlen - c then rlen - c else k + extra) = b2
+          have hb2a : k ≤ b2 := by subst hb2; split <;> omega
+          have hb2b : b2 ≤ rlen - c := by subst hb2; split <;> omega
+          have hi2 : InvBuf st' h' ((rest.drop c).take b2) :=
+            invBuf_mono hinv (by rw [hdl, List.length_take]; omega)
+          obtain ⟨r, ws', hr, hok⟩ := ih o' st' h' .ok (rest.drop c) (rlen - c) b2 (k :: ws) hrl' hb2b hi2
+            (fun _ => by omega) (by omega)
+          exact ⟨r, ws', hr, by rw [← hmax]; exact hok⟩
+        · have hi2 : InvBuf st' h' ((rest.drop c).take (rlen - c)) :=
+            invBuf_mono hinv (by rw [hdl, List.length_take]; omega)
+          obtain ⟨r, ws', hr, hok⟩ := ih o' st' h' .eof (rest.drop c) (rlen - c) (rlen - c) (k :: ws) hrl' (Nat.le_refl _) hi2
+            (fun hc => by cases hc) (by omega)
+          exact ⟨r, ws', hr, by rw [← hmax]; exact hok⟩
+      | eof =>
+        have hi2 : InvBuf st' h' ((rest.drop c).take (b - c)) :=
+          invBuf_mono hinv (by rw [hdl, List.length_take]; omega)
+        obtain ⟨r, ws', hr, hok⟩ := ih o' st' h' .eof (rest.drop c) (rlen - c) (b - c) (k :: ws) hrl' (by omega) hi2
+          (fun hc => by cases hc) (by omega)
+        exact ⟨r, ws', hr, by rw [← hmax]; exact hok⟩
+      | err =>
+        have hi2 : InvBuf st' h' ((rest.drop c).take (b - c)) :=
+          invBuf_mono hinv (by rw [hdl, List.length_take]; omega)
+        obtain ⟨r, ws', hr, hok⟩ := ih o' st' h' .err (rest.drop c) (rlen - c) (b - c) (k :: ws) hrl' (by omega) hi2
+          (fun hc => by cases hc) (by omega)
+        exact ⟨r, ws', hr, by rw [← hmax]; exact hok⟩
+
+theorem initSt_inv (ishead : Bool) (max : Nat) (buf : Bytes) : InvBuf (initSt ishead max) .readHeader buf := by
+  refine ⟨⟨by simp [initSt], by simp [initSt], ?_, ?_, ?_, ?_⟩, ?_⟩
+  · intro hc; exact absurd rfl hc
+  · intro _; rfl
+  · intro hc; cases hc
+  · intro hc; cases hc
+  · intro _; simp [initSt]
+
+theorem runAll_ok {σ : Type} (ovf : Bool → Nat → Int) (oracle : σ → Nat → Nat → σ × Arrival) (o : σ)
+    (ishead : Bool) (max : Nat) (data : Bytes) :
+    ∃ r ws, runAll ovf oracle o ishead max data = .callback r ws ∧ RespOK max r := by
+  have := run_ok ovf oracle (data.length + 3) o (initSt ishead max) .readHeader .ok data data.length 0 []
+    rfl (Nat.zero_le _) (initSt_inv ishead max _) (fun _ => by omega) (by omega)
+  simpa [runAll, initSt] using this
+
 end Percival.Proofs.Http
